@@ -397,6 +397,43 @@ def spellings(ctx: Ctx, recs: List[Dict[str, Any]]) -> None:
             ctx.violation(f"spelling:functional:{name}", f"{name}: integer / positional and float / keyword parameters give different values", {"a": a.flatten().tolist()[:4], "b": b.flatten().tolist()[:4]})
 
 
+def levels_near_a_count(ctx: Ctx) -> None:
+    """Quantile levels p with p*N close to - but MORE than the 1e-9 of the property's borderline clause away from - an integer:
+    the tail has exactly ceil(pN) outcomes (k+1 just above k, k just below, one outcome for p*N just above zero); value at risk
+    is the minimum for p <= 1/N."""
+    import math as _m
+    import pfhedge.nn.functional as F
+    from pfhedge.nn import ExpectedShortfall
+    for N in (1, 4, 10, 100):
+        xs = [((7 * i) % N) - N / 4 + 0.5 * (i % 3) for i in range(N)]
+        srt = sorted(xs)
+        for k in sorted({0, 1, N // 2, N - 1}):
+            for eps in (1e-7, 5e-8, 3e-7, -1e-7, -3e-7):
+                p = (k + eps) / N
+                if not (0 < p <= 1) or abs(p * N - round(p * N)) < 5e-9:
+                    continue
+                cnt = _m.ceil(p * N)
+                want = -sum(srt[:cnt]) / cnt
+                for dtype, tol in ((torch.float64, 1e-12), (torch.float32, 1e-5)):
+                    t = torch.tensor(xs, dtype=dtype)
+                    for label, fn in (("expected_shortfall", lambda: F.expected_shortfall(t, p)), ("expected_shortfall(dim=0) on (N, 2)", lambda: F.expected_shortfall(torch.stack([t, t], 1), p, dim=0)[1]),
+                                      ("ExpectedShortfall", lambda: ExpectedShortfall(p)(t))):
+                        ctx.count(n=1)
+                        try:
+                            got = float(fn())
+                        except Exception as e:
+                            ctx.violation("es:level-near-count", f"{label} raised {type(e).__name__} for a level with p*N = {k} {'+' if eps > 0 else '-'} {abs(eps)}", {"N": N, "p": p, "error": repr(e)[:200]})
+                            continue
+                        if not _m.isfinite(got) or abs(got - want) > tol * (1 + abs(want)):
+                            ctx.violation("es:level-near-count", f"{label} at p*N = {k} {'+' if eps > 0 else '-'} {abs(eps)} is not minus the mean of the ceil(pN) = {cnt} worst outcomes",
+                                          {"N": N, "p": p, "pN": p * N, "expected": want, "observed": got, "dtype": str(dtype)})
+        for p in (1e-8, 1e-3 / N, 0.999999 / N):
+            ctx.count(n=1)
+            got = float(F.value_at_risk(torch.tensor(xs, dtype=torch.float64), p))
+            if got != srt[0]:
+                ctx.violation("var:level-near-count", "value_at_risk for p <= 1/N is not the minimum", {"N": N, "p": p, "expected": srt[0], "observed": got})
+
+
 def selftest_values(ctx: Ctx, recs: List[Dict[str, Any]]) -> None:
     """Binding demonstration: corrupt one expected value; the replay must reject it."""
     probe = Ctx.__new__(Ctx)
